@@ -1161,6 +1161,14 @@ func (vc *VC) footprint(comp, av string) (string, bool) {
 				if !vc.prog.compMatches(pat, comp, vc.fn.Pkg.Pkg) {
 					continue
 				}
+				if mi.In != nil {
+					sv := vc.evalVal(mi.In, env, vc.entry, vc.entry)
+					if sv.K != KSlice {
+						panic(unsupported("'in' needs a slice"))
+					}
+					parts = append(parts, and(sx("(_ is elem)", av), eq(sx("epar", av), sx("sarr", sv.S)), sx("<=", sx("soff", sv.S), sx("eidx", av)), sx("<", sx("eidx", av), sx("+", sx("soff", sv.S), sx("slen", sv.S)))))
+					continue
+				}
 				if mi.After != nil {
 					ob := vc.evalVal(mi.After, env, vc.entry, vc.entry)
 					parts = append(parts, sx("<", sx("rootOf", vc.addrOf(ob)), sx("rootOf", av)))
